@@ -92,6 +92,14 @@ Proof.
 Qed.
 Print Assumptions iter_eof_after_close.
 
+(* A rejected Add (tracker error, or closed queue) changes nothing at all - in particular no entry becomes
+   reachable from any cursor; with iter_never_invents: its value is never yielded. *)
+Theorem iter_rejected_add_invisible :
+  forall s v, step s (LAddRej v) = (s, EvAdd false) /\
+              (closed (sq s) = true -> step s (LAdd v) = (s, EvAdd false)).
+Proof. exact rejected_add_invisible. Qed.
+Print Assumptions iter_rejected_add_invisible.
+
 Theorem iter_does_not_modify_queue :
   forall s i, sq (fst (step s (LCall i))) = sq s /\ sq (fst (step s (LRun i))) = sq s.
 Proof. exact iter_steps_keep_queue. Qed.
@@ -178,3 +186,24 @@ Theorem deque_iter_returns_after_close :
   forall vars s i cap, dreach vars s -> dclosed (sd s) = true -> dipc (dits s i) <> DParked cap.
 Proof. intros vars s i cap H. apply d_closed_not_parked, (dreach_inv _ _ H). Qed.
 Print Assumptions deque_iter_returns_after_close.
+
+(* element.wait in the finer generic monitor model of Conc/Monitor.v (Parking window, watcher broadcast as a
+   separate step), for every program of Push / Pop / Close / element.wait threads. *)
+Theorem deque_iter_wait_parked_unchanged :
+  forall prog hl ok s t k c rv cap,
+    dwait_prog prog -> k = NFRONT \/ k = NBACK \/ k = UPDATES ->
+    M.reach deque prog d0 hl ok s -> prog t = M.OWaiter (w_dwait k c rv cap) ->
+    (M.thr s t = M.Parking \/ M.thr s t = M.Parked) ->
+    get rv (dheap (M.dat s) c) = cap /\ dclosed (M.dat s) = false.
+Proof. exact deque_wait_parked_unchanged. Qed.
+Print Assumptions deque_iter_wait_parked_unchanged.
+
+(* "still returns on cancellation": with the watcher broadcasting under the deque's mutex (hl = true) no
+   schedule leaves a producer parked at quiescence with an ended context; ctx_guard names exactly what a
+   watcher that broadcasts WITHOUT the mutex loses (the window between the ctx check and cond.Wait). *)
+Theorem deque_iter_wait_no_lost_cancel :
+  forall prog hl ok s t k c rv cap,
+    M.ctx_guard deque hl ok -> M.reach deque prog d0 hl ok s -> M.quiescent s ->
+    prog t = M.OWaiter (w_dwait k c rv cap) -> M.thr s t = M.Parked -> M.ended s t = false.
+Proof. exact deque_wait_no_lost_cancel. Qed.
+Print Assumptions deque_iter_wait_no_lost_cancel.
